@@ -1232,6 +1232,67 @@ def _dotted_child(_job):
     return bad
 
 
+# ---- several classes of ONE module and ONE qualified name in a process (a class factory, a module executed again): each is converted
+# by the members IT declares
+def _samename_child(_job):
+    import dataclasses
+    import datetime
+    import decimal
+    import typing
+    import warnings
+    warnings.simplefilter("ignore")
+    import typelib
+
+    # (this file has postponed annotations: the member types are given as objects, not through annotation syntax)
+    def envelope_of(T):
+        C = dataclasses.make_dataclass("Envelope", [("payload", T), ("note", str, "")])
+        C.__module__ = __name__
+        return C
+
+    def init_of(T):
+        class Packet:
+            def __init__(self, payload, size=0):
+                self.payload, self.size = payload, size
+        Packet.__qualname__ = "Packet"
+        Packet.__init__.__annotations__ = {"payload": T, "size": int}
+        return Packet
+
+    def td_of(T):
+        return typing.TypedDict("Span", {"start": T, "stop": T})
+    bad = []
+    cases = [(decimal.Decimal, "1.50"), (datetime.date, "2020-02-29"), (typing.List[int], ["1", "2"]), (typing.Tuple[int, datetime.date], ["7", "2020-02-29"]),
+             (int, "5"), (str, 5), (typing.Optional[datetime.date], "2021-03-04")]
+    for make, build, read in ((envelope_of, lambda C, w: {"payload": w, "note": 3}, lambda r: r.payload),
+                              (init_of, lambda C, w: {"payload": w, "size": "2"}, lambda r: r.payload),
+                              (td_of, lambda C, w: {"start": w, "stop": w}, lambda r: r["stop"])):
+        for T, wire in cases:
+            C = make(T)
+            want = typelib.unmarshal(T, wire)
+            try:
+                got = read(typelib.unmarshal(C, build(C, wire)))
+                if got != want or type(got) is not type(want):
+                    bad.append(f"unmarshal({C.__qualname__} with a member of type {T}): member {got!r}; by its own routine: {want!r}"[:300])
+                if make is not td_of:
+                    inst = C(want)
+                    m = typelib.marshal(inst)["payload"]
+                    if m != typelib.marshal(want, t=T):
+                        bad.append(f"marshal({C.__qualname__} with a member of type {T}): member {m!r}; by its own routine: {typelib.marshal(want, t=T)!r}"[:300])
+            except Exception as e:  # noqa: BLE001
+                bad.append(f"{C.__qualname__} with a member of type {T} raised {type(e).__name__}: {e}"[:300])
+    return bad
+
+
+def same_name_probe(res):
+    bad = iso.map_isolated(_samename_child, [None], timeout=60.0)[0]
+    if not isinstance(bad, list):
+        raise RuntimeError(f"harness: same-name class probe failed: {bad}")
+    res.case({"family": "classes-sharing-module-and-qualified-name"}, True)
+    for b in bad:
+        res.failures.append({"what": b, "input": {"same_name": True}})
+    if not bad:
+        res.count("oracle:same-named-classes-converted-by-their-own-members", 21)
+
+
 def dotted_member_probe(res):
     bad = iso.map_isolated(_dotted_child, [None], timeout=60.0)[0]
     if not isinstance(bad, list):
@@ -1263,6 +1324,7 @@ def explore(ctx):
     cross_module_inheritance(res)
     protocol_method_classes(res)
     dotted_member_probe(res)
+    same_name_probe(res)
     return res
 
 
@@ -1291,6 +1353,10 @@ def replay(failure):
     if "xmod" in inp:
         bad = iso.map_isolated(_xmod_child, [None], timeout=60.0)[0]
         print(json.dumps({"differences": bad}, indent=1))
+        return bool(bad)
+    if "same_name" in inp:
+        bad = iso.map_isolated(_samename_child, [None], timeout=60.0)[0]
+        print(json.dumps(bad, indent=1, default=str)[:3000])
         return bool(bad)
     if "dotted" in inp:
         bad = iso.map_isolated(_dotted_child, [None], timeout=60.0)[0]
